@@ -264,7 +264,7 @@ where
                             let prefix = addr.iter().take(i).collect::<Multiaddr>();
                             let mut n = 0;
                             for a in addrs {
-                                if a.ends_with(&suffix) {
+                                if ends_with_components(&a, &suffix) {
                                     if n < MAX_TXT_RECORDS {
                                         n += 1;
                                         tracing::trace!(protocol=%name, resolved=%a);
@@ -551,6 +551,17 @@ fn resolve<'a, E: 'a + Send, R: Resolver>(
         }
         proto => future::ready(Ok(Resolved::One(proto.clone()))).boxed(),
     }
+}
+
+/// Whether the protocol components of `addr` end with the protocol components of `suffix`.
+///
+/// Unlike [`Multiaddr::ends_with`], which compares the binary encodings, this cannot be
+/// satisfied by the payload of a trailing component that merely happens to contain the
+/// encoding of `suffix` (e.g. `/ip4/9.6.0.6` ends with the bytes of `/tcp/6`).
+fn ends_with_components(addr: &Multiaddr, suffix: &Multiaddr) -> bool {
+    let n = addr.iter().count();
+    let m = suffix.iter().count();
+    n >= m && addr.iter().skip(n - m).eq(suffix.iter())
 }
 
 /// Parses a `<character-string>` of a `dnsaddr` TXT record.
